@@ -676,7 +676,16 @@ def main(tier, seed, only=None):
         if rnd == 0:
             log("compiling %d objects on %d cores ..." % (len(pre), common.NCPU))
         work = sorted(pre.values(), key=lambda w: -len(w[0]))
-        errs = [e for (_, e) in pmap(lambda w: tc.compile(*w), work) if e]
+        outs = pmap(lambda w: tc.compile(*w), work)
+        if obs_src and any(e for w, (_, e) in zip(work, outs) if e and w[0] is obs_src):
+            # the observer is the only code that names Internal:: tables; if a refactor of those internals stops it from
+            # compiling, the schedule measure falls back to outcome vectors -- never an error
+            log("observer disabled: it no longer compiles against this tree (internals renamed or retyped)")
+            obs_src = None
+            tc.observer_src = None
+            for (_, sch) in jobs:
+                sch.pop("observer", None)
+        errs = [e for w, (_, e) in zip(work, outs) if e and not (w[0] is not None and tc.observer_src is None and "vrt_observe" in w[0])]
         if not errs:
             break
         progress = False
